@@ -98,6 +98,19 @@ fn seed_bytes(seed: u64, sub: &str, worker: usize) -> [u8; 32] {
     *h.finalize().as_bytes()
 }
 
+/// Like exec_caught, but a harness problem is returned as Err instead of ending the process (fuzz workers skip the input).
+fn exec_soft<S: SubCheck>(s: &S, case: &S::Case) -> Result<Outcome, String> {
+    match catch(|| s.exec(case)) {
+        Ok(o) => Ok(o),
+        Err(p) if p.contains("harness:") => Err(p),
+        Err(p) => {
+            let mut o = Outcome::new();
+            o.fail(format!("{}/harness-or-uncaught-panic", s.name()), format!("uncaught panic in exec: {}", p));
+            Ok(o)
+        }
+    }
+}
+
 fn exec_caught<S: SubCheck>(s: &S, case: &S::Case) -> Outcome {
     match catch(|| s.exec(case)) {
         Ok(o) => o,
@@ -238,15 +251,105 @@ pub fn run_list<S: SubCheck>(ctx: &PropCtx, s: &S, sub_name: &str, cases: Vec<S:
     }
 }
 
-/// Object-safe view used by the registry (replay, listing).
+/// Result of running one sub-check case decoded from fuzzer bytes.
+pub struct FuzzRun {
+    pub out: Outcome,
+    /// the decoded case as JSON (only rendered when asked for, or when the case failed)
+    pub case: Option<Value>,
+}
+
+/// Fuzzer bytes -> case. The bytes are used as the random stream of the sub-check's *own* proptest strategy (proptest's
+/// PassThrough generator, made for exactly this), so a coverage-guided fuzzer mutates generator decisions: every case it
+/// reaches is one the strategy can produce (sound by construction) and is judged by the sub-check's own oracle.
+///
+/// PassThrough answers with zeros once its bytes are used up, and rand's unbiased range sampling rejects zero for most
+/// ranges - it would loop forever. So every input is followed by the same fixed 256 KiB pseudo-random tail (a pure
+/// function of nothing): short inputs get stable "default" decisions for everything they do not spell out, and no
+/// strategy here draws anywhere near that much (payload contents are derived from a drawn seed, not drawn byte by byte).
+pub fn passthrough_rng(data: &[u8]) -> proptest::test_runner::TestRng {
+    static TAIL: std::sync::OnceLock<Vec<u8>> = std::sync::OnceLock::new();
+    let tail = TAIL.get_or_init(|| {
+        let mut v = vec![0u8; 256 * 1024];
+        let mut h = blake3::Hasher::new();
+        h.update(b"ovf passthrough tail");
+        h.finalize_xof().fill(&mut v);
+        v
+    });
+    let mut all = Vec::with_capacity(data.len() + tail.len());
+    all.extend_from_slice(data);
+    all.extend_from_slice(tail);
+    proptest::test_runner::TestRng::from_seed(RngAlgorithm::PassThrough, &all)
+}
+
+pub fn case_from_bytes<C: Debug>(strategy: &BoxedStrategy<C>, data: &[u8]) -> Option<C> {
+    use proptest::strategy::ValueTree;
+    let cfg = Config { cases: 1, failure_persistence: None, max_local_rejects: 64, max_global_rejects: 64, ..Config::default() };
+    let rng = passthrough_rng(data);
+    let mut runner = TestRunner::new_with_rng(cfg, rng);
+    strategy.new_tree(&mut runner).ok().map(|t| t.current())
+}
+
+/// Object-safe view used by the registry (replay, listing, fuzzing).
 pub trait DynSub: Sync {
     fn name(&self) -> &'static str;
     fn replay(&self, case: &Value) -> anyhow::Result<Outcome>;
+    /// A closure that decodes fuzzer bytes into a case of this sub-check and executes it (None: bytes do not decode).
+    fn byte_fuzzer<'a>(&'a self, tier: Tier) -> Box<dyn Fn(&[u8], bool) -> Option<FuzzRun> + 'a>;
+    /// Re-run a failing fuzzer input under proptest (PassThrough random stream = the input), shrink it, report the shrunk
+    /// case as a violation. Returns false if the input does not fail here.
+    fn shrink_fuzz_input(&self, ctx: &PropCtx, data: &[u8]) -> bool;
 }
 
 impl<S: SubCheck> DynSub for S {
     fn name(&self) -> &'static str {
         SubCheck::name(self)
+    }
+    fn byte_fuzzer<'a>(&'a self, tier: Tier) -> Box<dyn Fn(&[u8], bool) -> Option<FuzzRun> + 'a> {
+        let strategy = self.strategy(tier);
+        Box::new(move |data: &[u8], want_case: bool| {
+            let case = case_from_bytes(&strategy, data)?;
+            let out = exec_soft(self, &case).ok()?;
+            let case = if want_case || out.fail.is_some() { Some(serde_json::to_value(&case).unwrap_or(Value::Null)) } else { None };
+            Some(FuzzRun { out, case })
+        })
+    }
+    fn shrink_fuzz_input(&self, ctx: &PropCtx, data: &[u8]) -> bool {
+        let strategy = self.strategy(ctx.tier);
+        let cfg = Config { cases: 1, failure_persistence: None, max_shrink_iters: self.max_shrink_iters(), ..Config::default() };
+        let rng = passthrough_rng(data);
+        let mut runner = TestRunner::new_with_rng(cfg, rng);
+        let first: std::cell::RefCell<Option<(S::Case, Fail)>> = std::cell::RefCell::new(None);
+        let res = runner.run(&strategy, |case| {
+            let out = exec_caught(self, &case);
+            match &out.fail {
+                Some(f) if ctx.known_for(&f.sig).is_none() => {
+                    if first.borrow().is_none() {
+                        *first.borrow_mut() = Some((case.clone(), f.clone()));
+                    }
+                    FAILED.store(true, Ordering::Relaxed);
+                    Err(TestCaseError::fail(f.sig.clone()))
+                }
+                _ => Ok(()),
+            }
+        });
+        match res {
+            Err(TestError::Fail(_, case)) => {
+                let mut out = exec_caught(self, &case);
+                for _ in 0..self.confirm_runs() {
+                    if out.fail.is_some() {
+                        break;
+                    }
+                    out = exec_caught(self, &case);
+                }
+                match (out.fail, first.into_inner()) {
+                    (Some(fail), _) => ctx.violation(SubCheck::name(self), &serde_json::to_value(&case).unwrap_or(Value::Null), &fail),
+                    (None, Some((c0, f0))) => ctx.violation(SubCheck::name(self), &serde_json::to_value(&c0).unwrap_or(Value::Null), &f0),
+                    (None, None) => return false,
+                }
+                true
+            }
+            _ => false,
+        }
     }
     fn replay(&self, case: &Value) -> anyhow::Result<Outcome> {
         let c: S::Case = serde_json::from_value(case.clone())?;
